@@ -643,7 +643,7 @@ Section Post.
       + destruct (nloop_sep solver (rbase R) (gvs g) _ _ _ _ _ _ HL) as [A|A]; [left; exact A | right; exact A].
     - intros i v Hi Hid. exact (Hdes i v Hi Hid).
     - exact Hlen.
-    - rewrite E5, E3. reflexivity.
+    - exact E5.
   Qed.
 
   (* nudge_unsatisfied_noop: an unsatisfied exit writes nothing back *)
@@ -728,8 +728,9 @@ Section Post.
       destruct (region_unfold _ _ _ H) as [Hpre [st [xf [k0 [HL [E1' _]]]]]]. rewrite Hsat, Hu in HL. fold g in HL.
       assert (Hg0 : forall c0, In c0 (gcs g) -> gap c0 == 0 \/ gap c0 == rbase R).
       { intros c0 Hc0. destruct (proj1 (nudge_gen_wf R) c0 Hc0) as [_ [_ [A|A]]]; [left; exact A | right; rewrite A; reflexivity]. }
-      refine (let X := proj2 (nloop_inv solver (rbase R) (gvs g) (gen_pre_base _ Hpre) (gcs g) _ _ _ _ _ _ _ Hg0 _ HL) in _).
+      assert (I0 : ninv (rbase R) (gcs g) (mklst (rbase R) (gcs g) [] (gen_pot R) false (repeat false (length (gcs g))))).
       { split; cbn; [apply gap_rel_refl | lra]. }
+      pose proof (nloop_inv solver (rbase R) (gvs g) (gen_pre_base _ Hpre) (gcs g) _ _ _ _ _ _ _ Hg0 I0 HL) as [_ X].
       rewrite E1'. exact X. }
     exists k, c. repeat split; try tauto.
     intros Hflag. destruct (Ha k c Hck Hflag) as [A _]. rewrite E1, E2 in A. lra.
@@ -773,4 +774,137 @@ Proof.
         - exists p. auto. }
       destruct (P1 k q Q1) as [p' [A [B C]]]. exists p'. split; [exact A|]. split; [rewrite B; exact Q2|].
       intros Hn. rewrite C by (intros X; apply Hn; right; exact X). apply Q3. intros ->. apply Hn. left. reflexivity.
+Qed.
+
+(* ================================================================== Part 4: the region checker run on real dumps *)
+
+Lemma indexed_nth_error {A} (l : list A) i s : nth_error l i = Some s -> nth_error (indexed l) i = Some (i, s).
+Proof.
+  intros H. pose proof (nth_error_some_lt _ _ _ H) as Hlt. unfold indexed.
+  rewrite (indexed_nth s l 0 i Hlt). cbn. rewrite (nth_error_nth _ _ s H). reflexivity.
+Qed.
+
+Record region_post (tol : Q) (R : region) (g : gst) (sep : Q) (cs : list con) (xs pos : list Q) : Prop := {
+  rp_cons : forall c, In c cs ->
+      nth (cl c) xs 0 + gap c <= nth (cr c) xs 0 + tol /\
+      (ceq c = true -> nth (cr c) xs 0 <= nth (cl c) xs 0 + gap c + tol);
+  rp_gaps : forall c, In c cs -> gap c == 0 \/ (sep <= gap c /\ gap c <= rbase R);
+  rp_vars : forall i v, nth_error (gvs g) i = Some v -> vid v <> freeSegmentID ->
+      Qabs' (nth i xs 0 - vdes v) <= SAT_TOL;
+  rp_written : forall i s w, nth_error (rsegs R) i = Some s -> nth_error pos i = Some w ->
+      (sfixed s = true -> w == spos s) /\
+      (sfixed s = false -> w == Qmin' (Qmax' (nth (seg_var g i) xs 0) (smin s)) (smax s) /\
+                           (smin s <= smax s -> smin s <= w /\ w <= smax s) /\
+                           Qabs' (w - nth (seg_var g i) xs 0) <= SAT_TOL + tol)
+}.
+
+Theorem nudge_region_ok_sound tol R g sat sep cs xs pos :
+  nudge_region_ok tol R g sat sep cs xs pos = true ->
+  if sat then region_post tol R g sep cs xs pos
+  else forall i s w, nth_error (rsegs R) i = Some s -> nth_error pos i = Some w -> w == spos s.
+Proof.
+  unfold nudge_region_ok. destruct sat.
+  - rewrite !andb_true_iff, !forallb_forall. intros [[[[[[Hl1 Hl2] Hrng] Hcon] Hgap] Hvar] Hwr]. split.
+    + intros c Hc. specialize (Hcon c Hc). unfold con_ok in Hcon. apply andb_true_iff in Hcon.
+      destruct Hcon as [A B]. apply Qleb_spec in A. split; [lra|].
+      intros E. rewrite E in B. cbn in B. apply Qleb_spec in B. lra.
+    + intros c Hc. specialize (Hgap c Hc). unfold gap_ok in Hgap. apply orb_true_iff in Hgap.
+      destruct Hgap as [A|A]; [left; apply Qeqb_spec; exact A|]. right. apply andb_true_iff in A.
+      rewrite !Qleb_spec in A. exact A.
+    + intros i v Hi Hid. apply Nat.eqb_eq in Hl1.
+      assert (exists x, nth_error xs i = Some x) as [x Hx].
+      { destruct (nth_error xs i) eqn:E; [eauto|]. apply nth_error_None in E.
+        pose proof (nth_error_some_lt _ _ _ Hi). lia. }
+      specialize (Hvar (v, x) (combine_nth_error _ _ _ _ _ Hi Hx)). cbn in Hvar. unfold var_ok in Hvar.
+      apply negb_true_iff in Hvar. rewrite (nth_error_nth _ _ 0 Hx). exact (off_desired_false _ _ Hvar Hid).
+    + intros i s w Hs Hw.
+      specialize (Hwr ((i, s), w) (combine_nth_error _ _ _ _ _ (indexed_nth_error _ _ _ Hs) Hw)). cbn in Hwr.
+      unfold seg_written_ok in Hwr. split.
+      * intros Hf. rewrite Hf in Hwr. apply Qeqb_spec. exact Hwr.
+      * intros Hf. rewrite Hf in Hwr. apply andb_true_iff in Hwr. destruct Hwr as [AB D].
+        apply andb_true_iff in AB. destruct AB as [A B]. apply Qleb_spec in D.
+        apply Qeqb_spec in A. split; [exact A|]. split; [|exact D]. intros Hle. apply orb_true_iff in B. destruct B as [B|B].
+        { apply negb_true_iff, Qleb_false in B. lra. }
+        apply andb_true_iff in B. rewrite !Qleb_spec in B. exact B.
+  - rewrite andb_true_iff, forallb_forall. intros [_ H] i s w Hs Hw.
+    specialize (H (s, w) (combine_nth_error _ _ _ _ _ Hs Hw)). cbn in H. apply Qeqb_spec. exact H.
+Qed.
+
+(* ================================================================== non-vacuity and computed witnesses *)
+
+(* a concrete region of the nudging stage: three segments of three connectors in one channel [0, 10], base distance 4,
+   the middle one with a fixed end segment on the right; solved by a hand-made "solver" that returns a feasible
+   placement.  It exercises nudge_region, the satisfied exit and the hypotheses of C10_model. *)
+Definition ex_seg (c : Z) (p : Q) : seg := mkseg c p false false false false false false 0 10 0 20.
+Definition ex_rel : rel := mkrel true false false false.
+Definition ex_R : region := mkregion false 4 false true [ex_seg 1 5; ex_seg 2 5; ex_seg 3 5] [[]; [ex_rel]; [ex_rel; ex_rel]].
+Definition ex_solver (k : nat) (vs : list nvar) (cs : list con) (fl : list bool) : list Q * list bool :=
+  ([1; 0; 10; 5; 0; 10; 9; 0; 10], fl).
+
+Example ex_region_runs :
+  exists o, nudge_region ex_solver 5 ex_R = NOk o /\ o_sat o = true /\ o_pos o = [1; 5; 9] /\ o_sep o = 4.
+Proof. eexists. split; [vm_compute; reflexivity|]. vm_compute. repeat split; reflexivity. Qed.
+
+Example ex_gen_shape : length (gvs (gen ex_R)) = 9%nat /\ length (gcs (gen ex_R)) = 9%nat /\ ggap (gen ex_R) = [3; 6; 7]%nat.
+Proof. vm_compute. repeat split; reflexivity. Qed.
+
+(* the contract hypothesis of Section Post is satisfiable on this region's problem (the placement above satisfies every
+   generated constraint exactly) *)
+Example ex_contract_holds :
+  forallb (con_ok 0 (fst (ex_solver 0 [] [] []))) (gcs (gen ex_R)) = true.
+Proof. vm_compute. reflexivity. Qed.
+
+Example ex_checker_accepts :
+  nudge_region_ok 0 ex_R (gen ex_R) true 4 (gcs (gen ex_R)) (fst (ex_solver 0 [] [] [])) [1; 5; 9] = true.
+Proof. vm_compute. reflexivity. Qed.
+Example ex_checker_rejects_overlap :
+  nudge_region_ok 0 ex_R (gen ex_R) true 4 (gcs (gen ex_R)) [5; 0; 10; 5; 0; 10; 9; 0; 10] [5; 5; 9] = false.
+Proof. vm_compute. reflexivity. Qed.
+
+(* an unsatisfied exit: channel [0, 0.5] cannot hold three segments at any sepDist > 1e-4 with this (unhelpful) solver
+   result; nothing is written back *)
+Definition ex_seg_n (c : Z) : seg := mkseg c 5 false false false false false false 5 (11 # 2) 0 20.
+Definition ex_Rn : region := mkregion false 4 false true [ex_seg_n 1; ex_seg_n 2] [[]; [ex_rel]].
+Definition ex_solver_n (k : nat) (vs : list nvar) (cs : list con) (fl : list bool) : list Q * list bool :=
+  ([4; 4; 6; 6; 4; 6], fl).
+Example ex_unsatisfied_noop :
+  exists o, nudge_region ex_solver_n 20 ex_Rn = NOk o /\ o_sat o = false /\ o_pos o = [5; 5] /\ o_solves o = 10%nat.
+Proof. eexists. split; [vm_compute; reflexivity|]. vm_compute. repeat split; reflexivity. Qed.
+
+(* ---- the two assertion mechanisms found in the unsatisfied-range bookkeeping, as computed witnesses of the model.
+   (1) COLA_ASSERT(vs[it->second]->id != freeSegmentID) (:3041; KNOWN_FINDINGS C15): a segment with a finite
+       minSpaceLimit but maxSpaceLimit = CHANNEL_MAX has no channel-right variable, so the range (i, i+1) opened at its
+       unsatisfied channel-left variable ends on the NEXT segment's variable, which is free.
+   (2) COLA_ASSERT(vs[i - 1]->id == channelLeftID) (:2925): a segment with a finite maxSpaceLimit but no finite
+       minSpaceLimit: the unsatisfied channel-right variable is preceded by the segment's own (free) variable. *)
+Definition ex_seg_half (c : Z) (mn mx : Q) : seg := mkseg c 5 false false false false false false mn mx 0 20.
+Definition ex_R5 : region :=
+  mkregion false 4 false true [ex_seg_half 1 5 CHANNEL_MAX; ex_seg_half 2 (- CHANNEL_MAX) CHANNEL_MAX] [[]; [ex_rel]].
+Example ex_assert5 :
+  nudge_region (fun _ _ _ fl => ([4; 4; 8], fl)) 20 ex_R5 = NAssert 5.
+Proof. vm_compute. reflexivity. Qed.
+Definition ex_R2 : region :=
+  mkregion false 4 false true [ex_seg_half 1 (- CHANNEL_MAX) 5] [[]].
+Example ex_assert2 :
+  nudge_region (fun _ _ _ fl => ([6; 6], fl)) 20 ex_R2 = NAssert 2.
+Proof. vm_compute. reflexivity. Qed.
+
+(* ---- a satisfied region with a violated gap constraint: the flag the nudging code never reads.  An equality
+   (shared-path exemption) between segments 0 and 2 and gap constraints 0 -> 1 -> 2: the solver drops (flags) one gap
+   constraint, every non-free variable is at its desired position, the region is `satisfied` and written back. *)
+Definition ex_Rf : region :=
+  mkregion false 4 false false
+           [ex_seg_half 1 (- CHANNEL_MAX) CHANNEL_MAX; ex_seg_half 2 (- CHANNEL_MAX) CHANNEL_MAX; ex_seg_half 1 (- CHANNEL_MAX) CHANNEL_MAX]
+           [[]; [ex_rel]; [mkrel true false false true; ex_rel]].
+Example ex_flag_ignored :
+  exists o, nudge_region (fun _ _ _ _ => ([5; 9; 5], [false; false; true])) 20 ex_Rf = NOk o /\ o_sat o = true /\
+            o_pos o = [5; 9; 5] /\ nudge_region_ok 0 ex_Rf (gen ex_Rf) true (o_sep o) (o_cs o) (o_xs o) (o_pos o) = false.
+Proof. eexists. split; [vm_compute; reflexivity|]. vm_compute. repeat split; reflexivity. Qed.
+
+Lemma satisfied_without_flags_refuted :
+  exists solver R o, nudge_region solver 20 R = NOk o /\ o_sat o = true /\
+    nudge_region_ok 0 R (gen R) true (o_sep o) (o_cs o) (o_xs o) (o_pos o) = false.
+Proof.
+  destruct ex_flag_ignored as [o [A [B [_ C]]]].
+  exact (ex_intro _ _ (ex_intro _ ex_Rf (ex_intro _ o (conj A (conj B C))))).
 Qed.
